@@ -9,6 +9,7 @@ import (
 	"fmt"
 	"io"
 	"sort"
+	"strings"
 	"sync"
 	"sync/atomic"
 	"time"
@@ -51,6 +52,17 @@ type VerifC11InSpec struct {
 	ServerExitMs  int  `json:"serverExitMs"`
 	ServerExitErr bool `json:"serverExitErr,omitempty"`
 	TimeoutS      int  `json:"timeoutS"`
+	// Feedback: what a reference server (IsRef) prints on its stderr right after its response,
+	// through the real printer of the reference server: internal.NewPrinter(stderr) and, for a
+	// feedback line (M >= 0), PrefixPrintf(Names[M], Fmt, Args...) — exactly what
+	// referenceserver.feedbackPrinter.Printf does; M < 0: Printf(Fmt, Args...), other output
+	Feedback []VerifC11InFeedback `json:"feedback,omitempty"`
+}
+
+type VerifC11InFeedback struct {
+	M    int      `json:"m"`
+	Fmt  string   `json:"fmt"`
+	Args []string `json:"args"`
 }
 
 type VerifC11InObs struct {
@@ -68,6 +80,10 @@ type VerifC11InObs struct {
 	ServerReturned bool `json:"serverReturned"` // the server function had returned when the batch returned
 	AwaitTimeout   bool `json:"awaitTimeout"`   // the scripted client waited in vain for a callback (10 s)
 	ClientWait     string `json:"clientWait"`   // waitForResponses after the batch: returned | hang
+	// reference server: lines given to the error printer, side-band records (sorted)
+	Forwarded []string    `json:"forwarded"`
+	BadPrefix int         `json:"badPrefix"`
+	Sideband  [][2]string `json:"sideband"`
 }
 
 // verifC11InMux delegates to the real client runner; it only counts, signals the barriers of the
@@ -144,6 +160,12 @@ func verifC11InResponse(name, kind string) *conformancev1.ClientCompatResponse {
 		}}
 	case "neither":
 		return &conformancev1.ClientCompatResponse{TestName: name}
+	}
+	// "error:<message>" — a client-reported error with that message, whatever it is (C04 op inrun)
+	if msg, ok := strings.CutPrefix(kind, "error:"); ok {
+		return &conformancev1.ClientCompatResponse{TestName: name, Result: &conformancev1.ClientCompatResponse_Error{
+			Error: &conformancev1.ClientErrorResult{Message: msg},
+		}}
 	}
 	panic("c11 inproc: unknown answer kind " + kind)
 }
@@ -295,7 +317,7 @@ func VerifC11InProc(spec VerifC11InSpec) VerifC11InObs {
 
 	var stopMu sync.Mutex
 	var serverReturned atomic.Bool
-	server := func(ctx context.Context, _ []string, in io.ReadCloser, out, _ io.WriteCloser) error {
+	server := func(ctx context.Context, _ []string, in io.ReadCloser, out, stderr io.WriteCloser) error {
 		defer serverReturned.Store(true)
 		req := &conformancev1.ServerCompatRequest{}
 		if err := internal.ReadDelimitedMessage(in, req, "runner", 10*time.Second, maxServerResponseSize); err != nil {
@@ -303,6 +325,20 @@ func VerifC11InProc(spec VerifC11InSpec) VerifC11InObs {
 		}
 		if err := internal.WriteDelimitedMessage(out, &conformancev1.ServerCompatResponse{Host: "127.0.0.1", Port: 12345}); err != nil {
 			return err
+		}
+		if spec.IsRef && len(spec.Feedback) > 0 {
+			printer := internal.NewPrinter(stderr)
+			for _, f := range spec.Feedback {
+				args := make([]any, len(f.Args))
+				for i, a := range f.Args {
+					args[i] = a
+				}
+				if f.M >= 0 {
+					printer.PrefixPrintf(spec.Names[f.M], f.Fmt, args...)
+				} else {
+					printer.Printf(f.Fmt, args...)
+				}
+			}
 		}
 		var byItself <-chan time.Time
 		if spec.ServerExitMs > 0 {
@@ -334,6 +370,7 @@ func VerifC11InProc(spec VerifC11InSpec) VerifC11InObs {
 	defer func() { go runner.stop() }()
 
 	meta := serverInstance{protocol: conformancev1.Protocol_PROTOCOL_CONNECT, httpVersion: conformancev1.HTTPVersion_HTTP_VERSION_1}
+	errPrinter := &verifC11Printer{}
 	done := make(chan struct{})
 	go func() {
 		defer close(done)
@@ -345,7 +382,7 @@ func VerifC11InProc(spec VerifC11InSpec) VerifC11InObs {
 			}
 		}()
 		runTestCasesForServer(context.Background(), !spec.IsRef, spec.IsRef, meta, cases, nil, nil,
-			runInProcess([]string{"verif-server"}, server), verifNopPrinter{}, verifNopPrinter{}, results, mux, nil, false)
+			runInProcess([]string{"verif-server"}, server), verifNopPrinter{}, errPrinter, results, mux, nil, false)
 	}()
 	timeout := spec.TimeoutS
 	if timeout <= 0 {
@@ -388,7 +425,16 @@ func VerifC11InProc(spec VerifC11InSpec) VerifC11InObs {
 	for name, o := range results.outcomes {
 		obs.Outcomes = append(obs.Outcomes, [2]string{name, verifC11Class(o)})
 	}
+	obs.Sideband = [][2]string{}
+	for name, msg := range results.serverSideband {
+		obs.Sideband = append(obs.Sideband, [2]string{name, msg})
+	}
 	results.mu.Unlock()
 	sort.Slice(obs.Outcomes, func(i, j int) bool { return obs.Outcomes[i][0] < obs.Outcomes[j][0] })
+	sort.Slice(obs.Sideband, func(i, j int) bool { return obs.Sideband[i][0] < obs.Sideband[j][0] })
+	errPrinter.mu.Lock()
+	obs.Forwarded = append([]string{}, errPrinter.forwarded...)
+	obs.BadPrefix = errPrinter.bad
+	errPrinter.mu.Unlock()
 	return obs
 }
